@@ -187,6 +187,45 @@ fn is_len_call(e: &syn::Expr) -> bool {
 }
 
 impl<'a> Rules<'a> {
+    fn rewrite_zip_map_sum(&mut self, e: &syn::Expr) -> Option<syn::Expr> {
+        let syn::Expr::MethodCall(sm) = e else { return None };
+        if sm.method != "sum" || !sm.args.is_empty() { return None; }
+        let tf = sm.turbofish.as_ref()?;
+        if norm(&tf.args.to_token_stream().to_string()) != "f64" { return None; }
+        let syn::Expr::MethodCall(map) = &*sm.receiver else { return None };
+        if map.method != "map" || map.args.len() != 1 { return None; }
+        let syn::Expr::Closure(cl) = &map.args[0] else { return None };
+        if cl.inputs.len() != 1 { return None; }
+        let syn::Pat::Tuple(tp) = &cl.inputs[0] else { return None };
+        if tp.elems.len() != 2 { return None; }
+        let syn::Expr::MethodCall(z) = &*map.receiver else { return None };
+        if z.method != "zip" || z.args.len() != 1 { return None; }
+        let syn::Expr::MethodCall(it) = &*z.receiver else { return None };
+        if it.method != "iter" || !it.args.is_empty() { return None; }
+        let a = (*it.receiver).clone();
+        let b = match &z.args[0] {
+            syn::Expr::MethodCall(bi) if bi.method == "iter" && bi.args.is_empty() => (*bi.receiver).clone(),
+            syn::Expr::Reference(r) => (*r.expr).clone(),
+            other @ (syn::Expr::Path(_) | syn::Expr::Field(_)) => other.clone(),
+            _ => return None,
+        };
+        let k = self.ctx.fresh();
+        let nn = syn::Ident::new(&format!("vx_n{}", k), proc_macro2::Span::call_site());
+        let ii = syn::Ident::new(&format!("vx_i{}", k), proc_macro2::Span::call_site());
+        let ss = syn::Ident::new(&format!("vx_s{}", k), proc_macro2::Span::call_site());
+        let (p0, p1) = (&tp.elems[0], &tp.elems[1]);
+        let body = &cl.body;
+        Some(syn::parse_quote!({
+            let mut #ss: f64 = 0.0;
+            let #nn = if #a.len() < #b.len() { #a.len() } else { #b.len() };
+            for #ii in 0..#nn {
+                let #p0 = &#a[#ii];
+                let #p1 = &#b[#ii];
+                #ss = #ss + (#body);
+            }
+            #ss
+        }))
+    }
     fn rewrite_map_collect(&mut self, e: &syn::Expr) -> Option<syn::Expr> {
         let syn::Expr::MethodCall(col) = e else { return None };
         if col.method != "collect" { return None; }
@@ -835,6 +874,16 @@ impl<'a> VisitMut for Rules<'a> {
             }
         }
         // R22: `A.iter()[.zip(B)].map(|pat| BODY).collect()`  ->  index loop pushing BODY into a fresh Vec
+        if self.ctx.on("R46") {
+            // R46: `A.iter().zip(B).map(|(a, b)| F).sum::<f64>()` -> index loop over the shorter of the two adding F to an accumulator that
+            // starts at 0.0 (std definitions of zip / map / Sum for f64; the sign of an empty sum's zero is not modelled)
+            if let Some(new) = self.rewrite_zip_map_sum(e) {
+                *e = new;
+                self.ctx.used("R46");
+                syn::visit_mut::visit_expr_mut(self, e);
+                return;
+            }
+        }
         if self.ctx.on("R22") {
             if let Some(new) = self.rewrite_map_collect(e) {
                 *e = new;
